@@ -195,9 +195,9 @@ pub fn run(ctx: &Ctx, mode: Mode) -> Shard {
 
     // ---- 1. grammar histories (seeded)
     let n_grammar = match (mode, ctx.thorough()) {
-        (Mode::C07, false) => 60,
+        (Mode::C07, false) => 300,
         (Mode::C07, true) => 4000,
-        (_, false) => 200,
+        (_, false) => 1200,
         (_, true) => 12000,
     };
     let n_grammar = ctx.scale(n_grammar);
